@@ -102,7 +102,12 @@ PROP = dict(
         'fields the API does not document as outputs are not compared '
         '(varintPFORMeta.thresholdValue after ReadMeta/Decode, '
         'varintAdaptiveMeta.encodedSize after Decode, the unused arm of the '
-        'metadata union, struct padding)',
+        'metadata union, struct padding); what a DECODER leaves in the '
+        'caller\'s PFOR metadata (varintPFORDecode with width == 0, the PFOR '
+        'arm of the union after varintAdaptiveDecode) is compared only when '
+        'the library wrote it: those objects are pre-filled with a pattern '
+        'different from the stack paint, and a field that still holds the '
+        'pattern in both executions is "not written", which is allowed',
         'stack residue is a repeated 64-bit word over 64 KiB below the '
         'caller; dependence on a multi-word residue pattern is only reachable '
         'through the MemorySanitizer replay',
